@@ -634,6 +634,7 @@ def main(run):
         if ob["oversize_content_in_results"]:
             forged = ob["oversize_form"] in ("no-substreams", "listed-smaller")
             v("oversize-member-produced-result", "a result carries content that lies behind the 10 MiB per-member limit" + (f" (7z folder of one file, size listing: {ob['oversize_form']})" if forged else ""),
+              None if (focus == "dups" and ob.get("dups_twin_clean")) else      # the twin with unique names is clean: the repeated name is the mechanism
               "oversize-member-listed-smaller" if forged else "link-to-protected-member" if ob["oversize_linked"] and focus != "dups" else None)
         if ob["dup_protected_in_results"] and not ob["oversize_content_in_results"]:
             v("hidden-or-unsupported-member-produced-result", f"tokens {ob['dup_protected_in_results'][:3]}: content of a protected member came out through a second entry ({ob['dups']}) of an ordinary member's name")
